@@ -354,3 +354,38 @@ func VfC04_Closure() {
 	vfObserveStr("why", why)
 	vfAssert("C04.closure.every-reference-is-the-listed-definition", ok)
 }
+
+// VfC04_ClosureDeep: the four programs that between them use every
+// instruction and terminator kind (built through the constructors, see
+// zz_vf_c03.go) are printed and parsed; the parsed module's whole object graph
+// is closed (every operand of every instruction kind is the listed
+// definition).
+//
+//vf:unwind 2000
+//vf:steps 400000000
+//vf:shards 4
+func VfC04_ClosureDeep() {
+	check := func(m *ir.Module, f *ir.Func) {
+		src := m.String()
+		m2, err := ParseString("t.ll", src)
+		vfReach("C04.closure-deep")
+		vfObserveStr("src", src)
+		vfAssert("C04.closure-deep.accepted", err == nil)
+		if err != nil {
+			return
+		}
+		ok, why := hClosed(m2)
+		vfObserveStr("why", why)
+		vfAssert("C04.closure-deep.every-reference-is-the-listed-definition", ok)
+	}
+	switch vfChoice("program", 4) {
+	case 0:
+		hC03ProgArith(check)
+	case 1:
+		hC03ProgMemory(check)
+	case 2:
+		hC03ProgTerminators(check)
+	default:
+		hC03ProgFunclets(check)
+	}
+}
